@@ -13,9 +13,9 @@ import (
 	"pgregory.net/rapid"
 )
 
-const ruleRoundTrip = "snapshot = generated sessions + payload (kind,seed,len; stream length classes 0/1/small/around 1 and 2 blocks of 2 MiB), " +
+const ruleRoundTrip = "snapshot = generated sessions + payload (kind,seed,len; stream length classes 0/1/small/around 1, 2 and 3 blocks of 2 MiB; payloads of a block or more are written by a single Write, by two/three large Writes or by generated pieces), " +
 	"written through the snapshotter.Save composition with generated write pieces, read back through the snapshotter.Load composition with generated read sizes, " +
-	"compression on/off, then shrunk+replaced; non-trivial = stream reaches a 2 MiB block boundary and a write or read piece ends within 8 bytes of it"
+	"compression on/off, caller buffers compared with pristine copies after writing, then shrunk+replaced; non-trivial = stream reaches a 2 MiB block boundary and a write or read piece ends within 8 bytes of it, or one Write call still holds a whole block when the writer reaches a block boundary inside it"
 
 const ruleFlip = "one generated snapshot file per case; single bit flips: every bit of header length+record+CRC slot (sampled for files > 256 KiB), sampled padding bits, " +
 	"one bit in each structural boundary byte of the payload (block ends, CRC bytes, tail; sampled for big files) and random payload bits, each loaded through the snapshotter.Load composition; " +
@@ -28,7 +28,7 @@ const ruleStream = "chunk stream = rsm.ChunkWriter output (streamed) or a Snapsh
 func TestVF_C14_FileRoundTrip(t *testing.T) {
 	st := vfhelp.NewStats("TestVF_C14_FileRoundTrip", ruleRoundTrip)
 	defer st.Flush()
-	rapid.Check(t, FileRoundTrip(st, V2Flavor(), 35))
+	rapid.Check(t, FileRoundTripHuge(st, V2Flavor(), 30, 13))
 }
 
 func TestVF_C14_FileFlip(t *testing.T) {
